@@ -33,10 +33,14 @@ def dim_seed(t):
         return L
     if t[0] == "sym":
         return ONE_D
+    if t[0] == "attr" and t[1][0] == "call" and t[1][1] in ("numpy.finfo", "numpy.iinfo"):
+        return ONE_D            # machine constants are pure numbers
     return None
 
 
 def space_seed(t):
+    if t[0] == "attr" and t[1][0] == "call" and t[1][1] in ("numpy.finfo", "numpy.iinfo"):
+        return T.ZERO
     if t[0] == "attr" and t[2] in ("x", "y", "xs", "ys", "center_x", "center_y"):
         return T.ONE
     if t[0] == "idx" and t[1][0] == "call" and t[1][1] == CCC:
@@ -45,6 +49,8 @@ def space_seed(t):
 
 
 def time_seed(t):
+    if t[0] == "attr" and t[1][0] == "call" and t[1][1] in ("numpy.finfo", "numpy.iinfo"):
+        return T.ZERO
     if t[0] == "attr" and t[2] == "time":
         return T.ONE
     return None
@@ -398,6 +404,7 @@ def run(ctx):
 
 _E, _P, _T = "forsys/edge.py", "forsys/fmatrix.py", "forsys/time_series.py"
 PINNED = [
+    ("machine epsilon added to the curvature denominator", _E, "((dx_dt**2 + dy_dt**2)**1.5)", "((dx_dt**2 + dy_dt**2)**1.5 + np.finfo(float).eps)"),
     ("circle fit started at the origin", "forsys/virtual_edges.py", "center, _ = sco.leastsq(objective_f, (np.mean(xs), np.mean(ys)))", "center, _ = sco.leastsq(objective_f, (0.0, 0.0))"),
     ("circle fit residual uses absolute x", "forsys/virtual_edges.py", "distances = np.sqrt((xs - c[0]) ** 2 + (ys - c[1]) ** 2)", "distances = np.sqrt((xs) ** 2 + (ys - c[1]) ** 2)"),
     ("coordinates rounded inside the tangent", _E, "vector = np.array((- (vobject.y - yc), (vobject.x - xc)))", "vector = np.array((- (round(vobject.y, 3) - yc), (round(vobject.x, 3) - xc)))"),
